@@ -176,9 +176,36 @@ func wsProbeTwoBadFramesThenClose() string {
 	if _, err := cl.Start(context.Background()); err != nil {
 		return ""
 	}
+	// let the reader get as far as it goes on its own — observed through the yield points of the verif build, not
+	// guessed with a sleep: either it ends (listen.exit) or it comes to a SECOND error report (handleErr.send)
+	events := make(chan string, 16)
+	graphql.VerifHook = func(p string) {
+		select {
+		case events <- p:
+		default:
+		}
+	}
+	defer func() { graphql.VerifHook = nil }()
 	conn.in <- []byte(`<<<`)
 	conn.in <- []byte(`{"type":"next","id":"nope","payload":{"data":{"p":1}}}`)
-	time.Sleep(60 * time.Millisecond) // let the reader get as far as it goes on its own
+	sends := 0
+wait:
+	for {
+		select {
+		case p := <-events:
+			if p == "listen.exit" {
+				break wait
+			}
+			if p == "handleErr.send" {
+				if sends++; sends >= 2 {
+					time.Sleep(20 * time.Millisecond) // the second report is about to block with the mutex held
+					break wait
+				}
+			}
+		case <-time.After(2 * time.Second):
+			break wait
+		}
+	}
 	done := make(chan struct{})
 	go func() { cl.Close(); close(done) }()
 	select {
